@@ -323,7 +323,7 @@ class Hostile(Suite):
     needs_root = True
     rule = ("packet scripts of a hostile sender run against real Receive in a chroot'ed child process with sentinel trees beside and above dest: valid "
             "STAT walks mutated by ill-formed paths (.., ., '', a/../.., absolute, //, trailing /, backslash), duplicates, swaps, missing parents, "
-            "children of files/symlinks, hard links to unknown/escaping names, symlink entries with xattrs pointing outside, DATA for ids never requested, "
+            "children of files/symlinks, mode words with several type bits set (dir+symlink ...) plus link names, hard links to unknown/escaping names, symlink entries with xattrs pointing outside, DATA for ids never requested, "
             "ERR; dirty destinations containing symlinks that point outside; non-trivial = script with >= 2 packets, distinct")
 
     def gen(self, rng, tier):
@@ -349,8 +349,25 @@ class Hostile(Suite):
                     if not sk:
                         break
                     k = rng.choice(sk)
-                    m = rng.randrange(9)
-                    if m == 0:
+                    m = rng.randrange(10)
+                    if m == 9:
+                        # type-confused mode word: more than one type bit set (dir+symlink, dir+fifo, symlink+device, ...), a link name
+                        # pointing outside dest, and a child entry below it
+                        dk = [i for i in sk if script[i]["stat"]["mode"] & (1 << 31)] or [k]
+                        k = rng.choice(dk)
+                        st = dict(script[k]["stat"])
+                        st["mode"] = (st["mode"] & 0o777) | rng.choice([(1 << 31) | (1 << 27), (1 << 31) | (1 << 27), (1 << 31) | (1 << 25), (1 << 27) | (1 << 26),
+                                                                      (1 << 31) | (1 << 26), (1 << 27) | (1 << 25), (1 << 31) | (1 << 27) | (1 << 24)])
+                        st["ln"] = hx(rng.choice([b"/outside/d", b"../../../outside/d", b"/outside", b"../sib"]))
+                        st["size"] = 0
+                        script[k] = {"t": "STAT", "stat": st}
+                        if rng.random() < 0.7:
+                            ch = gen.rand_stat(rng, bytes.fromhex(st["p"]) + b"/" + rng.choice([b"x", b"new", b"f"]), False)
+                            ch["mode"] = 0o644
+                            ch["size"] = rng.choice([0, 5])
+                            ch.pop("ln", None)
+                            script.insert(k + 1, {"t": "STAT", "stat": ch})
+                    elif m == 0:
                         st = dict(script[k]["stat"])
                         st["p"] = hx(rng.choice(HOSTILE_PATHS))
                         script[k] = {"t": "STAT", "stat": st}
